@@ -3,7 +3,7 @@
    under an action; [Inv] holds in every reachable state (C03_reachable_invariant).
    PARTIAL: that an enabled step is taken in bounded wall-clock time is Go-scheduler
    behaviour; the correspondence observes it, nothing is proved about time. *)
-From Verif Require Import Common Op_Model Op_Proofs.
+From Verif Require Import Common Op_Model Op_Corr Op_Spec Op_Proofs C03_Spec C03_Proofs.
 
 (* Every reachable state: queue names are unique; a queue in a handler is non-empty (the
    execution in progress is that of its first task: one at a time, head first); and, unless
@@ -89,3 +89,40 @@ Example C03_delay_met :
   map (fun q => (q_name q, N.of_nat (length (q_items q)), in_handler q, q_delay q)) (queues s)
   = [(0, 0, false, false); (1, 2, false, true); (2, 1, true, false)]%N.
 Proof. vm_compute. reflexivity. Qed.
+
+(* The property's whole decidable predicate (C03_Spec.P: per queue at most one execution and
+   always that of the head task, every task sits in the queue configured for its bindings,
+   the events of a queue keep their arrival order, an action leaves every queue it does not
+   concern exactly as it was) holds of the model's own observations after EVERY action of
+   EVERY action sequence - ticks, events, ends of executions with or without a back-off delay,
+   ends of delays, shutdown at any point - for every configuration with unique binding names
+   and monitors named after their bindings (what the harness generates), when the event
+   numbers handed out by the harness increase. *)
+Theorem C03_P_holds : forall cfg acts, wf_config cfg = true -> wf_acts acts = true ->
+  C03_Spec.P (cfg, acts, Op_Corr.model_obs (cfg, acts, [])) = true.
+Proof. exact C03_Proofs.P_holds. Qed.
+Print Assumptions C03_P_holds.
+
+(* non-vacuity of the hypotheses: three hooks (one of them v0), kubernetes and schedule bindings
+   in three queues, groups, allowFailure, a Synchronization that is not executed; the actions
+   contain a tick before Boot, failures with and without back-off delay, events arriving while
+   a queue is delayed, shutdown with executions open, actions after shutdown.  The run is not
+   idle: queue 2 holds four tasks at some point and the combined execution shows a group. *)
+Example C03_P_hyp_met :
+  let cfg :=
+    [ mkHook 1 false (Some 5%Z) [mkKb 1 0 0 false true 1; mkKb 2 2 7 true true 2; mkKb 3 0 7 false false 3]
+                                [mkSb 4 1 0 false 1; mkSb 5 2 7 true 2];
+      mkHook 2 false (Some 1%Z) [mkKb 6 2 0 false true 6; mkKb 7 0 3 false true 7] [mkSb 8 1 0 false 1];
+      mkHook 3 true None [mkKb 9 0 0 false true 9] [mkSb 10 0 0 false 2] ]%N in
+  let acts :=
+    [Tick 1; Boot; Finish 0 true; Finish 0 false; FinishWait 0; Tick 1; Elapse 0; Finish 0 true; Finish 0 true;
+     Finish 0 true; Finish 0 true; KubeEv 1 1; KubeEv 2 2; KubeEv 2 3; KubeEv 6 4; Tick 2; Tick 1; Finish 2 false;
+     FinishWait 2; KubeEv 2 5; Elapse 2; Finish 2 true; Finish 1 true; KubeEv 7 6; KubeEv 3 7; KubeEv 9 8;
+     Finish 0 true; Finish 0 true; Finish 0 true; Finish 0 true; Finish 2 true; Stop; Tick 1; KubeEv 1 9;
+     Finish 2 true; Finish 1 false; Boot]%N in
+  wf_config cfg = true /\ wf_acts acts = true /\
+  existsb (fun s => existsb (fun q => N.eqb (q_name q) 2 && Nat.eqb (length (q_items q)) 4) (queues s)) (trace cfg acts) = true /\
+  existsb (fun o => existsb (fun e => existsb (fun c => N.eqb (snd (fst (fst c))) K_Group) (eo_ctxs e)) (so_execs o))
+          (model_obs (cfg, acts, [])) = true /\
+  existsb (fun o => existsb qo_delayed (so_queues o)) (model_obs (cfg, acts, [])) = true.
+Proof. vm_compute. repeat split. Qed.
